@@ -1,6 +1,6 @@
 """Scenario language shared by the framework properties: build real reservoirpy nodes/models from a JSON-able
 description, run a history of operations on them, and print the same scenario + observations as a Gallina term
-for coq/run/RunModel.v (chk_hist)."""
+for coq/run/RunModel.v (chk_hist_both: the tidy model ModelSem and the low-level proxy/clamp model ProxySem)."""
 import itertools
 from fractions import Fraction
 
@@ -180,6 +180,17 @@ def _x_arg(b, mi, X):
     return fl(X)
 
 
+def at_rest(b):
+    """Mechanism state between operations: every node's `_state_proxy` is None and no receiver's DistantFeedback is clamped."""
+    for n in b.all_nodes().values():
+        if getattr(n, "_state_proxy", None) is not None:
+            return False
+        fbk = getattr(n, "_feedback", None)
+        if fbk is not None and getattr(fbk, "_clamped", False):
+            return False
+    return True
+
+
 def run_history(sc):
     """Execute the scenario's ops on the real library.  Returns (Built, [observation per op])."""
     b = Built(sc)
@@ -232,7 +243,7 @@ def run_history(sc):
         # make sure inserted Concat nodes are registered before states are collected next time
         for mi in range(len(b.models)):
             b.model_struct(mi)
-        obs.append({"ok": ok, "err": err, "outs": outs, "states": states,
+        obs.append({"ok": ok, "err": err, "outs": outs, "states": states, "rest": at_rest(b),
                     "shapes": {i: list(np.shape(n.state())) for i, n in b.all_nodes().items()
                                if getattr(n, "is_initialized", False) and n.state() is not None}})
     return b, obs
@@ -333,9 +344,11 @@ def to_coq(sc, b, obs):
                 xs = pairs(x if isinstance(x, dict) else {i: x for i in entries}, qvec)
                 t = "OpCall %s %s %s %s %s %s" % (nat(o["model"]), coqbool(o.get("stateful", True)), coqbool(o.get("reset", False)), fs, xs,
                                                   pairs(o.get("fb") or {}, qvec))
-        obt = "mkObs %s %s %s" % (coqbool(ob["ok"]), coqlist([qmat(step) for step in ob["outs"]]), pairs(ob["states"], qvec))
+        rest = ob.get("rest")      # None: not observed by this harness (the model's at-rest prediction is then not compared)
+        obt = "mkObs %s %s %s %s" % (coqbool(ob["ok"]), coqlist([qmat(step) for step in ob["outs"]]), pairs(ob["states"], qvec),
+                                     "None" if rest is None else "(Some %s)" % coqbool(rest))
         ops.append("(%s, %s)" % (t, obt))
-    return "chk_hist %s %s %s" % (coqlist(nodes), coqlist(models), coqlist(ops))
+    return "chk_hist_both %s %s %s" % (coqlist(nodes), coqlist(models), coqlist(ops))
 
 
 def jsonable(x):
